@@ -74,14 +74,23 @@ CODED = dict(InvertedExpiry=True, CheckThenActCap=True, SlotOverReturn=True, Slo
 DESIGN = dict(InvertedExpiry=False, CheckThenActCap=False, SlotOverReturn=False, SlotLostOnDup=False)
 
 SIZES = {
-    # tiny: payer A's pair + the bad-signature twin; complete graph, every edge is replayed (quick tier)
-    "S": dict(submit="SubmitS", stale="StaleQ", kinds="KindsH", blocks="BlocksS", vlists="VListsS",
+    # tiny: payer A's pair (t2 becomes unpayable once t1 is on chain); complete graph, every edge is replayed (quick tier)
+    "S": dict(submit="SubmitS", stale="NoStale", kinds="KindsH", blocks="BlocksS", vlists="VListsS", bycounts="ByCountT", QuietVerify=True,
               Cap=1, Lim=2, MaxTx=1, H0=1, MaxHeight=2, MaxLag=1, MaxFly=3, MaxPerTx=1),
-    # small: + an independent payer, pool capacity 2, two transactions per proposal
-    "Q": dict(submit="SubmitQ", stale="StaleQ", kinds="KindsH", blocks="BlocksQ", vlists="VListsQ",
+    # mini: t1 and its bad-signature twin, stale admission; used with pre-execution disabled (BlockSaved without Remain)
+    "N": dict(submit="SubmitN", stale="StaleQ", kinds="KindsH", blocks="BlocksN", vlists="VListsN", bycounts="ByCountT", QuietVerify=True,
+              Cap=1, Lim=2, MaxTx=1, H0=1, MaxHeight=2, MaxLag=1, MaxFly=3, MaxPerTx=1),
+    # small: both together, block with t2 (thorough, every edge replayed)
+    "M": dict(submit="SubmitM", stale="StaleQ", kinds="KindsH", blocks="BlocksM", vlists="VListsM", bycounts="ByCountTF", QuietVerify=True,
+              Cap=1, Lim=2, MaxTx=1, H0=1, MaxHeight=2, MaxLag=1, MaxFly=3, MaxPerTx=1),
+    # + an independent payer, pool capacity 2 (thorough: exhaustive check, no replay)
+    "Q": dict(submit="SubmitQ", stale="StaleQ", kinds="KindsH", blocks="BlocksQ", vlists="VListsQ", bycounts="ByCountTF", QuietVerify=False,
               Cap=2, Lim=2, MaxTx=1, H0=1, MaxHeight=2, MaxLag=1, MaxFly=3, MaxPerTx=1),
+    # witness of the pending-limit deviation (BFS to the first violation only)
+    "W": dict(submit="SubmitW", stale="NoStale", kinds="KindsH", blocks="BlocksW", vlists="VListsW", bycounts="ByCountT", QuietVerify=True,
+              Cap=1, Lim=2, MaxTx=1, H0=1, MaxHeight=2, MaxLag=1, MaxFly=7, MaxPerTx=1),
     # thorough: two blocks, lag 2, both sender kinds, more tasks in flight (random walks)
-    "T": dict(submit="SubmitT", stale="StaleT", kinds="KindsHN", blocks="BlocksT", vlists="VListsT",
+    "T": dict(submit="SubmitT", stale="StaleT", kinds="KindsHN", blocks="BlocksT", vlists="VListsT", bycounts="ByCountTF", QuietVerify=False,
               Cap=2, Lim=2, MaxTx=2, H0=1, MaxHeight=3, MaxLag=2, MaxFly=5, MaxPerTx=2),
 }
 
@@ -99,7 +108,8 @@ def cfg_text(size, switches, preexec=True, export="edge", invariants=None, prope
              "  Txs <- TxAll", "  HashOf <- HashAll", "  BadSig <- BadSigAll", "  LowGas <- LowGasAll",
              "  Price <- PriceAll", "  Drains <- DrainsAll",
              "  SubmitTxs <- %s" % k["submit"], "  StaleTxs <- %s" % k["stale"], "  Kinds <- %s" % k["kinds"],
-             "  Blocks <- %s" % k["blocks"], "  VLists <- %s" % k["vlists"]]
+             "  Blocks <- %s" % k["blocks"], "  VLists <- %s" % k["vlists"], "  ByCounts <- %s" % k["bycounts"],
+             "  QuietVerify = %s" % tla_bool(k["QuietVerify"])]
     for c in ("Cap", "Lim", "MaxTx", "H0", "MaxHeight", "MaxLag", "MaxFly", "MaxPerTx"):
         lines.append("  %s = %d" % (c, k[c]))
     lines.append("  PreExec = %s" % tla_bool(preexec))
@@ -112,6 +122,8 @@ def cfg_text(size, switches, preexec=True, export="edge", invariants=None, prope
         lines.append("PROPERTIES " + " ".join(props))
     if export == "edge":
         lines += ["CONSTRAINT InitOut", "ACTION_CONSTRAINT Edge"]
+    if export == "alias":
+        lines += ["ALIAS Alias"]
     lines.append("CHECK_DEADLOCK FALSE")
     return "\n".join(lines) + "\n", k
 
@@ -121,6 +133,10 @@ def norm_state(s):
     for f in ("pool", "pend", "fly"):
         s[f] = vf.norm_set(s[f])
     return s
+
+
+def init_state(k):
+    return {"chain": [], "pnext": k["H0"] + 1, "pool": [], "pend": [], "fly": [], "sheight": 0, "slots": k["Lim"]}
 
 
 def collect(r):
@@ -152,21 +168,44 @@ def go_act(a):
     raise ValueError(n)
 
 
-def replay(ctx, binary, k, preexec, paths, tag, timeout=1500):
-    inp = {"cap": k["Cap"], "lim": k["Lim"], "maxtx": k["MaxTx"], "preexec": preexec, "h0": k["H0"],
-           "paths": [{"steps": [go_act(s["act"]) for s in p["steps"]]} for p in paths]}
-    fin = os.path.join(ctx.scratch, "replay-%s.in.json" % tag)
-    fout = os.path.join(ctx.scratch, "replay-%s.out.ndjson" % tag)
-    vf.write_json(fin, inp)
+def replay(ctx, binary, k, preexec, paths, tag, timeout=1500, procs=4):
+    """Runs the paths on the real server: `procs` harness processes side by side (each with its own ledger), the
+    paths dealt out so that every process gets about the same number of steps.  Returns {path index: [observations]}."""
+    from concurrent.futures import ThreadPoolExecutor
+    procs = max(1, min(procs, len(paths)))
+    order = sorted(range(len(paths)), key=lambda i: -len(paths[i]["steps"]))
+    chunks = [[] for _ in range(procs)]
+    load = [0] * procs
+    for i in order:
+        j = load.index(min(load))
+        chunks[j].append(i)
+        load[j] += len(paths[i]["steps"]) + 8
     t = time.time()
-    rc, out = ctx.run_bin(binary, "TestVerifTxPipeReplay", env={"VERIF_IN": fin, "VERIF_OUT": fout}, timeout=timeout)
-    if rc != 0:
-        ctx.infra("replay harness %s failed rc=%s" % (tag, rc))
-        return None
+
+    def one(ci):
+        idx = chunks[ci]
+        inp = {"cap": k["Cap"], "lim": k["Lim"], "maxtx": k["MaxTx"], "preexec": preexec, "h0": k["H0"],
+               "paths": [{"steps": [go_act(s["act"]) for s in paths[i]["steps"]]} for i in idx]}
+        fin = os.path.join(ctx.scratch, "replay-%s-%d.in.json" % (tag, ci))
+        fout = os.path.join(ctx.scratch, "replay-%s-%d.out.ndjson" % (tag, ci))
+        vf.write_json(fin, inp)
+        rc, out = ctx.run_bin(binary, "TestVerifTxPipeReplay", env={"VERIF_IN": fin, "VERIF_OUT": fout}, timeout=timeout,
+                              cwd=os.path.join(ctx.scratch, "wd-%s-%d" % (tag, ci)))
+        if rc != 0:
+            return None
+        res = {}
+        for o in vf.read_ndjson(fout):
+            res.setdefault(idx[o["path"]], []).append(o)
+        return res
+
     obs = {}
-    for o in vf.read_ndjson(fout):
-        obs.setdefault(o["path"], []).append(o)
-    ctx.log("replay %s: %d paths, %d observations, %.1fs" % (tag, len(paths), sum(len(v) for v in obs.values()), time.time() - t))
+    with ThreadPoolExecutor(procs) as ex:
+        for ci, res in enumerate(ex.map(one, range(procs))):
+            if res is None:
+                ctx.infra("replay harness %s (process %d) failed" % (tag, ci))
+                return None
+            obs.update(res)
+    ctx.log("replay %s: %d paths, %d observations, %d processes, %.1fs" % (tag, len(paths), sum(len(v) for v in obs.values()), procs, time.time() - t))
     return obs
 
 
@@ -371,7 +410,8 @@ def judge(ctx, paths, obs, k, tag, stats):
             nsteps += 1
             stats[act["name"]] = stats.get(act["name"], 0) + 1
             rp = {"config": tag, "constants": k, "steps": [go_act(x["act"]) for x in p["steps"][:si + 1]]}
-            bad = orc.check(act, o)
+            # a harness-level failure or a call that blocks (no step of the model does) is drift, not an observation
+            bad = [] if (o.get("err") or o.get("blocked")) else orc.check(act, o)
             for key, detail in bad:
                 ctx.violation(key, detail, rp)
             d = compare(act, s["to"], o, k)
@@ -386,3 +426,294 @@ def judge(ctx, paths, obs, k, tag, stats):
     if ndrift > 5:
         ctx.infra("MODEL-DRIFT %s: %d paths diverged" % (tag, ndrift))
     return nsteps
+
+
+# ------------------------------------------------------------------------------------------------ cover
+def cover(edges, inits, max_len=400, bfs_limit=400):
+    """Transition cover with long paths: from the BFS-tree prefix of a state with uncovered out-edges, follow uncovered
+    edges greedily; when the current state has none left, walk (bounded BFS) to the nearest state that has.
+    Same path format as vf.Ctx.cover; every edge reachable from an initial state is on some path."""
+    sid, states = {}, []
+
+    def ident(s):
+        c = vf.canon(s)
+        i = sid.get(c)
+        if i is None:
+            i = sid[c] = len(states)
+            states.append(s)
+        return i
+
+    seen, E, adj = set(), [], {}
+    for e in edges:
+        a, b = ident(e["from"]), ident(e["to"])
+        key = (a, vf.canon(e["act"]), b)
+        if key in seen:
+            continue
+        seen.add(key)
+        adj.setdefault(a, []).append(len(E))
+        E.append((a, e["act"], b))
+    roots = [ident(s) for s in inits]
+    parent = {r: None for r in roots}
+    root_of = {r: r for r in roots}
+    order = list(roots)
+    qi = 0
+    while qi < len(order):
+        u = order[qi]
+        qi += 1
+        for ei in adj.get(u, ()):
+            v = E[ei][2]
+            if v not in parent:
+                parent[v] = ei
+                root_of[v] = root_of[u]
+                order.append(v)
+    covered = [False] * len(E)
+    nxt = {u: 0 for u in adj}
+    ncov = 0
+
+    def uncovered_edge(u):
+        lst = adj.get(u)
+        if not lst:
+            return None
+        i = nxt[u]
+        while i < len(lst) and covered[lst[i]]:
+            i += 1
+        nxt[u] = i
+        return lst[i] if i < len(lst) else None
+
+    def walk_to_uncovered(start):
+        prev = {start: None}
+        q = [start]
+        i = 0
+        while i < len(q) and len(q) < bfs_limit:
+            u = q[i]
+            i += 1
+            for ei in adj.get(u, ()):
+                v = E[ei][2]
+                if v in prev:
+                    continue
+                prev[v] = ei
+                if uncovered_edge(v) is not None:
+                    path = []
+                    while prev[v] is not None:
+                        path.append(prev[v])
+                        v = E[prev[v]][0]
+                    path.reverse()
+                    return path
+                q.append(v)
+        return None
+
+    paths = []
+    for u in order:
+        while uncovered_edge(u) is not None:
+            pre = []
+            x = u
+            while parent[x] is not None:
+                pre.append(parent[x])
+                x = E[parent[x]][0]
+            pre.reverse()
+            chain = list(pre)
+            cur = u
+            while len(chain) < max(max_len, len(pre) + 1):
+                ei = uncovered_edge(cur)
+                if ei is None:
+                    hop = walk_to_uncovered(cur)
+                    if hop is None or len(chain) + len(hop) >= max_len:
+                        break
+                    chain.extend(hop)
+                    cur = E[hop[-1]][2]
+                    continue
+                chain.append(ei)
+                covered[ei] = True
+                ncov += 1
+                cur = E[ei][2]
+            for ei in chain:
+                if not covered[ei]:
+                    covered[ei] = True
+                    ncov += 1
+            paths.append({"init": states[root_of[u]], "steps": [{"act": E[ei][1], "to": states[E[ei][2]]} for ei in chain]})
+    return paths, ncov, len(E)
+
+
+# ------------------------------------------------------------------------------------------------ witnesses
+# named deviation of the code  ->  (finding key, configuration, strict property the as-coded model violates)
+DEVIATIONS = {
+    "CheckThenActCap": ("Limit:pool-exceeds-MAX_CAPACITY:check-then-act", "S", "inv", "PoolCapStrict"),
+    "SlotOverReturn": ("Limit:pending-exceeds-MAX_LIMITATION:slot-over-return", "W", "inv", "PendLimStrict"),
+    "InvertedExpiry": ("VerifyBlock:on-chain-tx-accepted:expired-pool-entry", "S", "prop", "VerifyBlockOK"),
+}
+
+
+def switches(ctx):
+    """the as-coded switches; a deviation whose finding is marked fixed is switched off (the check then replays the
+    design model on the code and reports the defect as a violation should it come back)"""
+    sw = dict(CODED)
+    fixed = {f.get("key") for f in ctx._findings if f.get("property") == ctx.pid and f.get("status") == "fixed"}
+    for name, (key, _, _, _) in DEVIATIONS.items():
+        if key in fixed:
+            sw[name] = False
+    return sw
+
+
+def witness(ctx, name, sw, preexec=True):
+    """TLC (breadth first) on the as-coded model with the STRICT property: the shortest behaviour that violates it,
+    as a path for the replay.  None (+ infra) when TLC finds none: the switch would be decorative."""
+    key, size, kind, prop = DEVIATIONS[name]
+    cfg = "TxPipe_wit_%s.cfg" % name
+    text, k = cfg_text(size, sw, preexec=preexec, export="alias", invariants=[prop] if kind == "inv" else [],
+                       properties=[prop] if kind == "prop" else [])
+    r = ctx.tlc("TxPipe_MC", cfg=cfg, workers=1, files={cfg: text}, timeout=1200, tags=())
+    if r.status != "violation" or r.violated != prop:
+        ctx.infra("witness %s: the as-coded model does not violate %s (status %s %s %s)" % (name, prop, r.status, r.violated, r.errors[:2]))
+        return None, k, r
+    states = []
+    for line in r.trace_text.split("\n"):
+        m = re.match(r'^/\\ j = (".*")\s*$', line.strip()) or re.match(r'^j = (".*")\s*$', line.strip())
+        if m:
+            states.append(json.loads(json.loads(m.group(1))))
+    if len(states) < 2:
+        ctx.infra("witness %s: cannot read TLC's error trace (%d states)" % (name, len(states)))
+        return None, k, r
+    for st in states:
+        norm_state(st["st"])
+    path = {"init": states[0]["st"], "steps": [{"act": st["act"], "to": st["st"]} for st in states[1:]]}
+    return path, k, r
+
+
+# ------------------------------------------------------------------------------------------------ trace validation
+def trace_run(ctx, binary, k, sw, ntraces, nsub, nper, nops, tag, maxh=3, preexec=True):
+    inp = {"cap": k["Cap"], "lim": k["Lim"], "maxtx": k["MaxTx"], "preexec": preexec, "h0": k["H0"], "maxh": maxh,
+           "ntraces": ntraces, "nsub": nsub, "nper": nper, "nops": nops}
+    fin = os.path.join(ctx.scratch, "trace-%s.in.json" % tag)
+    fraw = os.path.join(ctx.scratch, "trace-%s.raw.ndjson" % tag)
+    fout = os.path.join(ctx.scratch, "trace-%s.ndjson" % tag)
+    vf.write_json(fin, inp)
+    rc, out = ctx.run_bin(binary, "TestVerifTxPipeTrace", env={"VERIF_IN": fin, "VERIF_OUT": fraw}, timeout=900,
+                          cwd=os.path.join(ctx.scratch, "wd-trace-%s" % tag))
+    if rc != 0:
+        ctx.infra("trace driver failed rc=%s" % rc)
+        return None, None
+    ev = vf.read_ndjson(fraw)
+    if not ev or ev[0].get("e") != "Header":
+        ctx.infra("trace driver wrote no header")
+        return None, None
+    ev[0].update({"inverted": sw["InvertedExpiry"], "checkthenact": sw["CheckThenActCap"],
+                  "slotoverreturn": sw["SlotOverReturn"], "slotlostondup": sw["SlotLostOnDup"]})
+    write_ndjson(fout, ev)
+    return fout, ev
+
+
+def write_ndjson(path, ev):
+    with open(path, "w") as f:
+        for e in ev:
+            f.write(json.dumps(e) + "\n")
+
+
+def trace_oracle(ctx, ev, k, sw):
+    """(a)-(f) on the log itself (no model): exactly one answer per submission, GetTxPool answers, VerifyBlock answers."""
+    h0 = k["H0"]
+    nsub = nget = nver = 0
+    tr = -1
+    chain, calls, answered = [], {}, {}
+
+    def onchain_at(h):
+        s = set()
+        for b in chain[:max(0, h - h0)]:
+            s.update(b)
+        return s
+
+    for i, e in enumerate(ev):
+        n = e.get("e")
+        rp = {"trace_prefix": ev[max(0, i - 40):i + 1]}
+        if n == "Reset":
+            for sid, c in calls.items():
+                if c["e"] == "SubCall" and answered.get(sid, 0) == 0:
+                    ctx.violation("Reply:lost", {"trace": tr, "submission": c}, rp)
+            tr += 1
+            chain, calls, answered = [], {}, {}
+        elif n == "Abort" or n == "SubTimeout":
+            ctx.infra("trace driver: %s %s" % (n, e.get("tx")))
+        elif n == "SubCall":
+            calls[e["id"]] = e
+            nsub += 1
+        elif n == "SubRet":
+            answered[e["id"]] = answered.get(e["id"], 0) + 1
+            if answered[e["id"]] > 1:
+                ctx.violation("Reply:double-answer", {"trace": tr, "tx": e["tx"]}, rp)
+        elif n == "SaveCall":
+            chain.append([HASHOF[t] for t in e["block"]])
+        elif n == "GetCall":
+            calls[e["id"]] = e
+            nget += 1
+        elif n == "GetRet":
+            c = calls[e["id"]]
+            seen = set()
+            for a in e["ans"]:
+                x = HASHOF.get(a["tx"], a["tx"])
+                if x in seen:
+                    ctx.violation("GetTxPool:hash-twice", {"trace": tr, "tx": a["tx"]}, rp)
+                seen.add(x)
+                if a["vh"] < c["h"]:
+                    ctx.violation("GetTxPool:verified-below-requested-height", {"trace": tr, "tx": a["tx"], "vh": a["vh"], "h": c["h"]}, rp)
+                if x in onchain_at(c["h"]):
+                    ctx.violation("GetTxPool:on-chain-tx-handed-out", {"trace": tr, "tx": a["tx"], "h": c["h"]}, rp)
+                if a["tx"] in BADSIG:
+                    ctx.violation("GetTxPool:bad-signature-handed-out", {"trace": tr, "tx": a["tx"]}, rp)
+            if c["bc"] and k["MaxTx"] > 0 and len(e["ans"]) > k["MaxTx"]:
+                ctx.violation("GetTxPool:more-than-MaxTxInBlock", {"trace": tr, "n": len(e["ans"])}, rp)
+        elif n == "VerCall":
+            calls[e["id"]] = e
+            nver += 1
+        elif n == "VerRet":
+            c = calls[e["id"]]
+            hs = [HASHOF[t] for t in c["list"]]
+            if e["err"] == "ok" and len(set(hs)) != len(hs):
+                ctx.violation("VerifyBlock:duplicate-in-list-accepted", {"trace": tr, "list": c["list"]}, rp)
+            if e["err"] == "ok" and not sw["InvertedExpiry"] and [x for x in hs if x in onchain_at(c["h"])]:
+                ctx.violation("VerifyBlock:on-chain-tx-accepted:trace", {"trace": tr, "list": c["list"], "h": c["h"]}, rp)
+            if e["err"] == "noanswer":
+                ctx.violation("VerifyBlock:no-answer", {"trace": tr, "list": c["list"]}, rp)
+    for sid, c in calls.items():
+        if c["e"] == "SubCall" and answered.get(sid, 0) == 0:
+            ctx.violation("Reply:lost", {"trace": tr, "submission": c}, {"trace_prefix": ev[-40:]})
+    return {"traces": tr + 1, "submissions": nsub, "gettxpool": nget, "verifyblock": nver, "events": len(ev) - 1}
+
+
+def trace_check(ctx, path, ev, what="concurrent"):
+    """TLC explains the log as a behaviour of TxPipe, or the model has drifted from the code (infra, never a verdict:
+    the verdicts on the log are trace_oracle's)."""
+    v = ctx.trace_validate("TxPipe_Trace", path, timeout=1200)
+    r = v["result"]
+    if not v["accepted"]:
+        k = min(v["matched"], len(ev) - 1)
+        if not ctx.violations:
+            ctx.infra("MODEL-DRIFT trace %s: TLC explains %d of %d events (status %s %s); first unexplained: %s; preceding: %s" % (
+                what, v["matched"], v["total"], r.status, r.violated or r.errors[:1], json.dumps(ev[k])[:300],
+                json.dumps(ev[max(1, k - 12):k])[:1500]))
+    return v
+
+
+def trace_self_test(ctx, path, ev, full=True):
+    """binding self-test: a changed answer and a dropped answer must both be rejected"""
+    idx = [i for i, e in enumerate(ev) if e.get("e") == "SubRet" and e["err"] == "ok"]
+    gidx = [i for i, e in enumerate(ev) if e.get("e") == "GetRet" and e["ans"]]
+    tests = []
+    if idx:
+        i = idx[len(idx) // 2]
+        bad = [dict(e) for e in ev]
+        bad[i]["err"] = "badsig"
+        tests.append(("changed-answer", bad))
+    if gidx and full:
+        # a transaction below the gas price threshold can never be handed to the consensus
+        i = gidx[len(gidx) // 2]
+        bad = [dict(e) for e in ev]
+        bad[i]["ans"] = [dict(bad[i]["ans"][0], tx="t5")] + bad[i]["ans"][1:]
+        tests.append(("changed-gettxpool-answer", bad))
+    if not tests:
+        ctx.infra("trace self-test: the log has no accepted submission / non-empty GetTxPool answer to corrupt")
+    for name, t in tests:
+        p = os.path.join(ctx.scratch, "selftest-%s.ndjson" % name)
+        write_ndjson(p, t)
+        v = ctx.trace_validate("TxPipe_Trace", p, timeout=1200)
+        if v["accepted"]:
+            ctx.infra("binding self-test: the %s log was accepted" % name)
+    return len(tests)
